@@ -1,6 +1,6 @@
 (* C02 — shape of the generated cases and the two executable verdicts. No proofs. *)
 From VLib Require Import CaseLib.
-From C02 Require Import Model.
+From C02 Require Export Model ModelTx.
 Open Scope N_scope.
 
 Definition resl_eqb (a : res (list N)) (b : list N) : bool :=
@@ -30,6 +30,69 @@ Definition sq_spec_ok (c : list doc) (s : squery) : bool :=
   let '(si, st) := search_spec c src from to rev limit wt in
   ids_eqb si ids && (st =? total) && hist_eqb (hist_spec c src from to hist) himpl.
 
+(* ---- unit level: real TokenLIDs driven by a script of PutLIDsInQueue / GetLIDs ---- *)
+Inductive tlop := TPut (lids : list N) | TGet.
+
+(* model: the slices GetLIDs returned, in order *)
+Fixpoint tl_run (mids rids : list N) (ops : list tlop) (tl : tlids) : list (list N) :=
+  match ops with
+  | [] => []
+  | TPut lids :: r => tl_run mids rids r (put_lids tl lids)
+  | TGet :: r => let tl' := get_lids mids rids tl in t_sorted tl' :: tl_run mids rids r tl'
+  end.
+
+Fixpoint strictly_desc (mids rids : list N) (l : list N) : bool :=
+  match l with
+  | a :: ((b :: _) as l') => queue_less mids rids a b && strictly_desc mids rids l'
+  | _ => true
+  end.
+
+(* spec: every returned slice is strictly ordered by (MID, RID, LID) descending and holds exactly the LIDs
+   queued so far, each once *)
+Fixpoint tl_spec (mids rids : list N) (ops : list tlop) (sofar : list N) (impl : list (list N)) : bool :=
+  match ops, impl with
+  | [], [] => true
+  | TPut lids :: r, _ => tl_spec mids rids r (sofar ++ lids) impl
+  | TGet :: r, out :: impl' =>
+      strictly_desc mids rids out && forallb (fun x => memN x sofar) out && forallb (fun x => memN x out) sofar
+      && tl_spec mids rids r sofar impl'
+  | _, _ => false
+  end.
+
+(* ---- unit level: real inverser + inverseLIDs ---- *)
+Fixpoint index_of (v : N) (l : list N) (i : N) : option N :=
+  match l with [] => None | x :: r => if x =? v then Some i else index_of v r (i + 1) end.
+
+Definition inverse_spec (values unmapped : list N) (lo hi : N) : list N :=
+  flat_map (fun v => match index_of v values 1 with
+                     | Some x => if (lo <=? x) && (x <=? hi) then [x] else []
+                     | None => [] end) unmapped.
+
+(* ---- system level: an active fraction fed by bulks with searches in between ---- *)
+Inductive sop := SBulk (ds : list doc) | SAsk (s : squery).
+
+Definition ask_tx_agrees (st : astate) (s : squery) : bool :=
+  let 'SQ _ ast from to rev limit wt hist ids total himpl := s in
+  match search_tx st ast from to rev limit wt hist, hist_tx st ast from to rev hist with
+  | Ok (mi, mt), Ok mh => ids_eqb mi ids && (mt =? total) && hist_eqb mh himpl
+  | _, _ => false
+  end.
+Definition ask_ast (s : squery) : query := let 'SQ _ ast _ _ _ _ _ _ _ _ _ := s in ast.
+
+(* transcribed model (state threaded through the script) and specification-level model, both = real answer *)
+Fixpoint script_agrees (ops : list sop) (st : astate) (c : list doc) : bool :=
+  match ops with
+  | [] => true
+  | SBulk ds :: r => script_agrees r (bulk st ds) (c ++ ds)
+  | SAsk s :: r => ask_tx_agrees st s && sq_agrees (prepare c) s && script_agrees r (touch st (ask_ast s)) c
+  end.
+Fixpoint script_spec_ok (ops : list sop) (c : list doc) : bool :=
+  match ops with
+  | [] => true
+  | SBulk ds :: r => script_spec_ok r (c ++ ds)
+  | SAsk s :: r => sq_spec_ok c s && script_spec_ok r c
+  end.
+
 Inductive case :=
 (* a tree of real merge nodes over static posting lists, drained: impl = all values Next() returned *)
 | CNode (rev : bool) (t : ntree) (impl : list N)
@@ -37,6 +100,12 @@ Inductive case :=
 | CFold (rev : bool) (ds : list (list N)) (impl : list N)
 (* a real fraction holding documents c (arrival order), and requests answered by DataProvider.Search *)
 | CSearch (c : list doc) (qs : list squery)
+(* real TokenLIDs over MIDs/RIDs arrays: impl = the slice returned by each GetLIDs *)
+| CTokLIDs (mids rids : list N) (ops : list tlop) (impl : list (list N))
+(* real newInverser(values, size) + inverseLIDs(unmapped, inv, lo, hi); len = inverser.Len() *)
+| CInverser (values : list N) (size : N) (unmapped : list N) (lo hi : N) (impl : list N) (len : N)
+(* a real active fraction: bulks and searches interleaved, every answer recorded *)
+| CScript (ops : list sop)
 (* getLIDsBorders of the real fraction holding c *)
 | CBorders (c : list doc) (from to : N) (minLID maxLID : N).
 
@@ -45,6 +114,11 @@ Definition case_agrees (c : case) : bool :=
   | CNode rev t impl => resl_eqb (eval_ntree rev t) impl
   | CFold rev ds impl => resl_eqb (bind (build_or_tree (map NStatic ds)) (eval_ntree rev)) impl
   | CSearch c qs => let p := prepare c in forallb (sq_agrees p) qs
+  | CTokLIDs mids rids ops impl => list_eqb (list_eqb N.eqb) (tl_run mids rids ops tl_empty) impl
+  | CInverser values size unmapped lo hi impl len =>
+      list_eqb N.eqb (inverse_lids unmapped (new_inversion values (N.to_nat size)) lo hi) impl
+      && (N.of_nat (length values) + 1 =? len)
+  | CScript ops => script_agrees ops a_init []
   | CBorders c from to lo hi =>
       match lids_borders from to (table c) with
       | Ok (a, b) => (a =? lo) && (b =? hi)
@@ -69,6 +143,10 @@ Definition case_spec_ok (c : case) : bool :=
       strictly_sorted rev impl && forallb (fun x => existsb (memN x) ds) impl
       && forallb (fun x => memN x impl) (concat ds)
   | CSearch c qs => forallb (sq_spec_ok c) qs
+  | CTokLIDs mids rids ops impl => tl_spec mids rids ops [] impl
+  | CInverser values size unmapped lo hi impl len =>
+      list_eqb N.eqb (inverse_spec values unmapped lo hi) impl && (N.of_nat (length values) + 1 =? len)
+  | CScript ops => script_spec_ok ops []
   | CBorders c from to lo hi =>
       list_eqb N.eqb (range_positions from to 1 (table c)) (iota lo (N.to_nat (hi + 1 - lo)))
   end.
